@@ -1,5 +1,6 @@
 #!/bin/bash
-# tools/commit_fix.sh "<commit message>"  -- run the pinned baseline and commit staged /repo changes only if it still passes
-set -e
-/verif/tools/baseline.sh 2>&1 | grep -v "WARNING conda" | tail -3
+# tools/commit_fix.sh "<commit message>"  -- run the pinned baseline and commit /repo/abtem changes only if it still passes
+/verif/tools/baseline.sh > /tmp/baseline.$$ 2>&1; rc=$?
+grep -v "WARNING conda" /tmp/baseline.$$ | tail -3; rm -f /tmp/baseline.$$
+[ $rc -eq 0 ] || { echo "BASELINE FAILED - not committing"; exit 1; }
 cd /repo && git add -A abtem && git commit -qm "$1" && git log --oneline | head -1
